@@ -1,6 +1,8 @@
 import PPProofs.Props.C11
 import PPProofs.Props.C11Heap
 import PPProofs.Props.C11FromDict
+import PPProofs.Props.C11Deep
+import PPProofs.Props.C11DeepC
 #print axioms PP.PR.copy_preserves
 #print axioms PP.PR.pickle_roundtrip
 #print axioms PP.PR.copy_same_answers
@@ -11,6 +13,27 @@ import PPProofs.Props.C11FromDict
 #print axioms PP.PR.sum_is_fold
 #print axioms PP.PR.concat_assoc_former_witness
 #print axioms PP.PR.from_dict_item_step
+#print axioms PP.PRHeap.deepcopyLoop_eq
+#print axioms PP.PRHeap.deepcopy_tokens_fresh
+#print axioms PP.PRHeap.deepcopy_frame_tokens
+#print axioms PP.PRHeap.deepcopy_frame_tokens_many
+#print axioms PP.PRHeap.deepcopy_frame_views
+#print axioms PP.PRHeap.deepcopy_names_shared
+#print axioms PP.PRHeap.deepcopy_named_alias_any_depth
+#print axioms PP.PRHeap.deepcopy_tokens_fresh_full
+#print axioms PP.PRHeap.deepcopy_views
+#print axioms PP.PRHeap.deepcopyN_corr
+#print axioms PP.PRHeap.deepcopyN_ext
+#print axioms PP.PRHeap.copyModule_deep_fresh
+#print axioms PP.PRHeap.copyModule_deep_frame
+#print axioms PP.PRHeap.copyModule_deep_as_list
+#print axioms PP.PRHeap.copyModule_deep_views
+#print axioms PP.PRHeap.deepObjN_drel
+#print axioms PP.PRHeap.deepObjN_rel
+#print axioms PP.PRHeap.deepObjN_spec
+#print axioms PP.PRHeap.deepcopyC_tokens_fresh
+#print axioms PP.PRHeap.deepcopyC_frame_tokens
+#print axioms PP.PRHeap.deepcopyC_corr
 #print axioms PP.PRHeap.frame_step
 #print axioms PP.PRHeap.frame_all
 #print axioms PP.PRHeap.copy_frame
